@@ -32,6 +32,7 @@ def to_float(I, v, node):
 
 def binop(I, op, a, b, node=None):
     c = I.ctx
+    a, b = I.unopt(a), I.unopt(b)
     ints = isinstance(a, (SInt, SBool)) and isinstance(b, (SInt, SBool))
     if ints:
         x, y = as_int(a), as_int(b)
@@ -239,6 +240,11 @@ def compare(I, op, a, b, node=None):
 
 
 def identity(I, a, b):
+    if isinstance(a, SOpt) and isinstance(b, SNoneT):
+        return a.isnone
+    if isinstance(b, SOpt) and isinstance(a, SNoneT):
+        return b.isnone
+    a, b = I.unopt(a), I.unopt(b)
     if isinstance(a, SNoneT) or isinstance(b, SNoneT):
         if isinstance(a, SOpaque) or isinstance(b, SOpaque):
             o = a if isinstance(a, SOpaque) else b
@@ -266,6 +272,7 @@ def identity(I, a, b):
 
 
 def order(I, op, a, b, node):
+    a, b = I.unopt(a), I.unopt(b)
     def rel(x, y):
         if isinstance(op, ast.Lt):
             return x < y
@@ -373,6 +380,7 @@ def slice_bounds(I, sl, length):
 
 def subscript(I, base, k, node=None):
     c = I.ctx
+    base, k = I.unopt(base), I.unopt(k)
     if isinstance(base, (STuple, SList)):
         n = len(base.items)
         if isinstance(k, SSlice):
@@ -499,6 +507,9 @@ def make_default(I, factory):
 
 def store_subscript(I, base, k, v, node=None):
     c = I.ctx
+    k = I.unopt(k)
+    if isinstance(base, ZVal):
+        v = I.unopt(v)
     if isinstance(base, SList):
         i = norm_index(I, k, z3.IntVal(len(base.items)), node)
         base.items[c.concretize(i, what="index")] = v
